@@ -300,15 +300,29 @@ MSG_VARIANTS = [
          cjk=["甲错", "乙错", "丙错", "丁错"],
          mixed=["1号字段: 长度应在 2~4 之间", "2号字段: 长度应在 2~4 之间", "3号字段: 长度应在 2~4 之间", "4号字段: 长度应在 2~4 之间"],
          latin=["ошибка А 😀", "ошибка Б 😀", "ошибка В 😀", "ошибка Г 😀"]),
+    # messages that end in ';' or in blanks (the clause separator is "; ": neither contains it) and that contain '%'
+    dict(ascii=["A is required;", "B is required;", "C is required;", "D is required;"],
+         cjk=["甲必填;", "乙必填;", "丙必填;", "丁必填;"],
+         mixed=["100% 必填 A ", "100% 必填 B ", "100% 必填 C ", "100% 必填 D "],
+         latin=["≥ 50% (A) ;", "≥ 50% (B) ;", "≥ 50% (C) ;", "≥ 50% (D) ;"]),
+    dict(ascii=["%d items %s A", "%d items %s B", "%d items %s C", "%d items %s D"],
+         cjk=["%甲处%v错误", "%乙处%v错误", "%丙处%v错误", "%丁处%v错误"],
+         mixed=["A项 %!d(MISSING) 错误", "B项 %!d(MISSING) 错误", "C项 %!d(MISSING) 错误", "D项 %!d(MISSING) 错误"],
+         latin=["é%", "ß%", "ø%", "ñ%"]),
 ]
 LABELS = {"zh": "说明: ", "en": "explain: "}
 SEP = "; "
 
 
+def _variant(ctx, cid):
+    """the message family of case cid: every family is used in every run, which case gets which rotates with the seed"""
+    return (cid + ctx.seed) % len(MSG_VARIANTS)
+
+
 def _msg(ctx, m):
     if m["shape"] == "none":
         return None
-    return MSG_VARIANTS[ctx.seed % len(MSG_VARIANTS)][m["shape"]][m["pos"] - 1]
+    return MSG_VARIANTS[getattr(ctx, "mv", ctx.seed % len(MSG_VARIANTS))][m["shape"]][m["pos"] - 1]
 
 
 def _paths(ctx):
@@ -333,8 +347,9 @@ def _abstract_clauses(err):
 
 
 def _concrete_case(ctx, cid, carrier, grp, clauses, paths):
+    ctx.mv = _variant(ctx, cid)
     fields = [dict(rule=c["rule"], arg=c["arg"], input=paths.get(c["input"], c["input"]), msg=_msg(ctx, c["msg"])) for c in clauses]
-    return dict(id=cid, carrier=carrier, grp=grp, fields=fields)
+    return dict(id=cid, carrier=carrier, grp=grp, fields=fields, mv=ctx.mv)
 
 
 def _expl_text(ctx, e):
@@ -441,6 +456,7 @@ def run_c15(ctx):
                 stats["default_wording_cases" if ecl[0]["expl"]["def"] != "*" else "free_wording"] += 1
             else:
                 stats["custom_msg_cases"] += 1
+        ctx.mv = case["mv"]
         bads = _check_case(ctx, case, ecl, ex, o, meta)
         for sig, desc in bads:
             nbad += 1
@@ -464,7 +480,7 @@ def run_c15(ctx):
              "sweep: every row of Explain!Sweep x {no message, ASCII, CJK, mixed, non-ASCII without CJK} x carriers. Non-trivial = sequence mixing zh and en labels or "
              "containing an unlabelled clause, or a sweep case with a custom message. Distinct by concrete case.",
         exhaustive=True,
-        sequences=stats["seq"], sweep_cases=stats["sweep"], mismatches=nbad, message_variant=ctx.seed % len(MSG_VARIANTS), **{k: v for k, v in stats.items() if k not in ("seq", "sweep")},
+        sequences=stats["seq"], sweep_cases=stats["sweep"], mismatches=nbad, message_variants=len(MSG_VARIANTS), **{k: v for k, v in stats.items() if k not in ("seq", "sweep")},
         mc_states=mcs[0].distinct, sanity_pinned_loop_rejected_by_tlc=mcs[1].invariant_violated,
         samples=samples or [dict(case=cases[0], err=outs[0]["err"])],
     )
@@ -500,6 +516,7 @@ def _replay_c15(ctx, vh):
     common.write_ndjson(inp, [r["case"]])
     out = ctx.run_vh(vh, ["ruletext-explain"], stdin_path=inp).stdout
     o = json.loads(out.splitlines()[0])
+    ctx.mv = r["case"].get("mv", ctx.seed % len(MSG_VARIANTS))
     for sig, desc in _check_case(ctx, r["case"], r["clauses"], r["extract"], o, r["meta"]):
         ctx.candidate({k: v for k, v in sig.items() if v is not None}, "replayed: " + desc, r)
     return ctx.finish("model_checking", dict(evaluations=1, distinct_nontrivial=0, traces_validated_against_impl=1, samples=[dict(case=r["case"], out=o)], replay=True))
